@@ -174,6 +174,7 @@ def rand_ids(rng, n):
             ids.add(rng.choice(ID_POOL))
         else:
             ids.add(rng.randrange(1, rng.choice([20, 3000, 1 << 20, 1 << 29])))
+        ids = {i for i in ids if not 19000 <= i <= 19999}      # reserved by the .proto language: protoc rejects them
     return sorted(ids)[:n]
 
 
